@@ -46,7 +46,13 @@ def main():
         muts = [m for m in muts if m["id"] in only or m["prop"] in only]
     with ThreadPoolExecutor(max_workers=3) as ex:
         res = list(ex.map(run_one, muts))
-    json.dump(res, open(os.path.join(HERE, "results.json"), "w"), indent=1)
+    rp = os.path.join(HERE, "results.json")
+    if only and os.path.exists(rp):          # partial run: merge into the recorded results
+        old = {r["id"]: r for r in json.load(open(rp))}
+        old.update({r["id"]: r for r in res})
+        json.dump([old[k] for k in sorted(old)], open(rp, "w"), indent=1)
+    else:
+        json.dump(res, open(rp, "w"), indent=1)
     bad = [r for r in res if not r["ok"]]
     for r in res:
         print("{id} {prop} expect={expect} exit={exit} caught_by={caught_by} {s}".format(s="OK" if r["ok"] else "UNEXPECTED", **{**dict(exit="-", caught_by=[], expect="-"), **r}))
